@@ -132,13 +132,15 @@ def inv_occ(w, o, base):
     return z3.And(reach, z3.Implies(flag_term(o.fields["is_filled"]), z3.And(*conj) if conj else z3.BoolVal(True)))
 
 
-def inv_atoms(w, a, base):
+def inv_atoms(w, a, base, sub_objects_only=False):
     """Atoms.build() is not gated by Atoms.is_built (it always recomputes); what it relies on is the gate of kpts.build().
     Invariant: K-Inv(kpts) and kpts.a == a and (is_built => kpts.is_built and the grid quantities are those of the
     current inputs). The Occupations invariant is proved on Occupations itself; Atoms reaches occ only through its
     members (frame obligation C19.Atoms.frame)."""
     k = a.fields["kpts"]
     parts = [inv_kpoints_c(w, k, base), eq_term(w, k.fields["a"], a.fields["_a"])]
+    if sub_objects_only:
+        return z3.And(*parts)
 
     def prep(c):
         c.fields["is_built"] = False
@@ -447,6 +449,73 @@ class Establishes:
                                kpts_is_built=bool(a.kpts.is_built), occ_is_filled=bool(a.occ.is_filled), Nstate=int(a.occ.Nstate))
 
 
+class BuildRepairs:
+    """Atoms.build() started in ANY state in which the sub-object invariants hold (they are preserved by every member, see the
+    preserves_inv obligations) - in particular states in which k-points or occupation inputs were changed behind a built Atoms
+    object (the known findings C19.Atoms.kpts.*) - ends in a state satisfying the FULL Atoms invariant: every derived quantity is
+    the one of the current inputs. This is the 'followed by build()' clause of the property."""
+
+    def __call__(self, ob, tier, seed):
+        try:
+            for case in CASES["Atoms"]:
+                w = World()
+                s0 = gen_atoms(w, "s", case)
+                base = typing("Atoms", s0)
+                pre = inv_atoms(w, s0, base, sub_objects_only=True)
+
+                def run(it, _s0=s0):
+                    s = clone(_s0)
+                    run_method(it, s, "build")
+                    ghost_update("Atoms", "build", _s0, s)
+                    return None, s
+
+                for r in explore(w, run, assumptions=base + [pre], ext=EXT_ATOMS):
+                    if r.outcome != "return":
+                        continue
+                    post = inv_atoms(w, r.state, base)
+                    flags = z3.And(flag_term(r.state.fields["is_built"]), flag_term(r.state.fields["kpts"].fields["is_built"]))
+                    v, model = check_valid(w, r.path.pc, z3.And(post, flags))
+                    if v == "proved":
+                        continue
+                    if v == "unknown":
+                        return Result(UNDECIDED, backend="z3", detail=str(model))
+                    wit = dict(history="kshift changed and kpts.build() called behind a built Atoms object, then Atoms.build()")
+                    ok, info = self.replay(wit)
+                    return Result(REFUTED, backend="z3", witness=wit, replayed=ok, replay_info=info, solver_output=str(model)[:800],
+                                  detail="Atoms.build() does not re-establish the invariant from a state in which the k-points were rebuilt on their own: "
+                                         "grid quantities / masks / weights are not those of the current inputs")
+        except OutsideSubset as e:
+            return Result(UNDECIDED, backend="engine-Z", detail=f"outside subset: {e}")
+        return Result(DISCHARGED, backend="z3")
+
+    def replay(self, wit):
+        import numpy as np
+
+        import eminus
+        from eminus import Atoms
+
+        eminus.config.backend = "numpy"
+        eminus.config.verbose = "critical"
+        diffs = {}
+        for name, change in (("kshift", lambda k: setattr(k, "kshift", [0.1, 0.2, 0.0])), ("mesh permutation", lambda k: setattr(k, "kmesh", [1, 1, 2]))):
+            a = Atoms("He", [[0.0, 0.0, 0.0]], ecut=3, a=6.0)
+            a.kpts.kmesh = [2, 1, 1]
+            a.build()
+            change(a.kpts)
+            a.kpts.build()
+            a.build()
+            b = Atoms("He", [[0.0, 0.0, 0.0]], ecut=3, a=6.0)
+            b.kpts.kmesh = [2, 1, 1]
+            change(b.kpts)
+            b.build()
+            d = 0.0
+            for x, y in zip(a.Gk2c, b.Gk2c):
+                x, y = np.asarray(x), np.asarray(y)
+                d = max(d, 1.0 if x.shape != y.shape else float(np.abs(x - y).max()))
+            diffs[name] = d
+        return bool(max(diffs.values()) > 1e-10), dict(check="Atoms built, k-points changed and rebuilt on their own, Atoms.build(): |G+k|^2 vs a fresh object", max_diff=diffs)
+
+
 class Persists:
     """A reduction applied by a helper persists through a subsequent build()."""
 
@@ -569,6 +638,9 @@ def _register():
         register(Obligation(name=f"C19.{cls}.{member}.establishes_flags", prop=PROP, engine="Z", functions=[f"{mod[cls]}:{cls}.{member}"],
                             run=Establishes(cls, member, flags), assumes=("engineZ", "z3"),
                             doc=f"{cls}.{member}() from any state satisfying the invariant ends with {flags} set"))
+    register(Obligation(name="C19.Atoms.build.reestablishes_inv_from_any_state", prop=PROP, engine="Z", functions=["eminus.atoms:Atoms.build", "eminus.atoms:Atoms._sample_unit_cell"],
+                        run=BuildRepairs(), assumes=("engineZ", "z3", "callee-contract"),
+                        doc="Atoms.build() from any state with valid sub-objects (incl. k-points / occupation inputs changed behind a built Atoms) ends with every derived quantity current"))
     register(Obligation(name="C19.KPoints.trs.persists_through_build", prop=PROP, engine="Z",
                         functions=["eminus.kpoints:KPoints.trs", "eminus.kpoints:KPoints.build"],
                         run=Persists("KPoints", "trs", 0, ["_k", "_wk", "_Nk"]), assumes=("engineZ", "z3"),
